@@ -16,7 +16,7 @@ def _units():
         for kind, kname in KINDS.items():
             name = f"C17_{kname}_{g}"
             defs = [f"-DVF_KIND={kind}", f'-DVF_UNIT="{name}"'] + [f"-DVF_W{i}={w}" for i, w in enumerate(ws)]
-            thorough = ["asan-cc", "asan-nocc"] + (["plain-cc"] if kind == 0 or g == "g3" else [])
+            thorough = ["asan-cc", "asan-nocc"] + (["plain-cc"] if kind == 0 else [])
             out.append(Unit(name, "harness/C17_bitset.cpp", defs=defs,
                             flavours={"quick": ["asan-cc"], "thorough": thorough},
                             shards={"quick": 4, "thorough": 8}))
@@ -49,7 +49,7 @@ P = dict(
           "value set; constructor from unsigned long long incl. bits above N; string_view and char const* constructors (lengths N, N-1, "
           "N/2, 1, 0, and in a separate case N+1, N+3; pos 0/2 with junk before and after; n = rest / npos / > rest / < rest; default, "
           "custom and swapped zero/one characters; every defaulted-argument call form; char and wchar_t). Random part: seeded histories "
-          "of 64 (thorough: 1 in 8 of 256) steps over all of these operations, 150 (thorough 5000) per subject. Distinct = distinct hash of (subject, value before, operation, arguments); "
+          "of 64 (thorough: 1 in 8 of 256) steps over all of these operations, 150 (thorough 3000) per subject. Distinct = distinct hash of (subject, value before, operation, arguments); "
           "non-trivial = every mutating step and every construction of a non-zero value."),
     units=_units(),
     floor={"quick": 20000000, "thorough": 200000000},
